@@ -7,7 +7,7 @@ Decided in full from the path summaries of the four kernels' wrappers:
   P-4 no path can return INT64_MIN
   P-5 op= is summary-equivalent to op
 """
-from . import common, lib
+from . import common, lib, astlint
 from .lib import M, FIN, E, sym, is_const, lin_rng, ret_rng
 from fxai.state import IntV
 from fxai.interp import Broken
@@ -48,8 +48,9 @@ def spec(op):
 
 def run(tier, seed):
     V = common.Verdict("C01", tier, seed)
-    configs = ["K17"] if tier == "quick" else ["K17", "K17A", "K20"]
+    configs = ["K17", "K20"] if tier == "quick" else ["K17", "K17A", "K20"]
     extra = []
+    astlint.false_attr(V, "K17", only={"operator+=", "operator-=", "operator+", "operator-", "fixed_addition", "fixed_substract"})
     n = 0
     for cfg in configs:
         try:
